@@ -33,6 +33,27 @@ import os as _os
 if not _os.environ.get("PYVC_TIMEOUT_MS"):
     from pyvc import solve as _solve
     _solve.QUICK_TIMEOUT_MS = 4000
+def _retry_under_load(pc, goal, timeout_ms):
+    """(round 7) z3 `unknown` on an OVERSUBSCRIBED machine (1-minute load above 1.5 x the core count): one more attempt with four times
+    the budget, so that a 0.1 s lemma starved to > 4 s of wall clock does not become `undecided`.  On a quiet machine nothing is
+    retried (a wrong VC keeps its quick `unknown` -> cvc5 `sat`).  Registered through solve.EXTRA_PROVERS: a True answer is an `unsat`."""
+    try:
+        if _os.getloadavg()[0] <= 1.5 * (_os.cpu_count() or 1):
+            return False
+    except OSError:
+        return False
+    s = z3.Solver()
+    s.set("timeout", int(4 * timeout_ms))
+    s.add(*pc)
+    s.add(z3.Not(goal))
+    return s.check() == z3.unsat
+
+
+from pyvc import solve as _solve_mod
+if not any(getattr(f, "__name__", "") == "_retry_under_load" for f in _solve_mod.EXTRA_PROVERS):
+    _solve_mod.EXTRA_PROVERS.append(_retry_under_load)
+
+
 class _ExecutorKw(dict):
     """Executor options by target; the RTF walker (whatever it is called) runs with cheap feasibility checks."""
 
@@ -1335,9 +1356,18 @@ def epub_walker_contracts(reg, P_STR, P_ATTRS):
 
     out = []
     norm = find_fn(C.EPUB, f"{C.ECLS}._normalize_ws", mentions=["split", "join"], nparams=1)
-    out.append(FnContract(target=f"{C.EPUB}::{norm}", params=[("self", Maker(lambda ex, st, n: VUnk(n), desc="receiver (static method)")), ("value", P_STR)], assumed=True,
-                          returns=lambda c: VStr(T.STRIP(T.WSSUB(c.args["value"].t))),
-                          note="' '.join(v.split()) == strip(collapse whitespace runs to one blank)  (assumed model of str.split / join)"))
+    # (round 7) VERIFIED on the real body, given the assumed models of str.split() / ' '.join / strip: nothing but whitespace
+    # changes, inner runs collapse, outer whitespace goes.  Call sites name the result strip(ws_sub(value)): of that term only
+    # nw(.) == nw(value), sq(.) == trim(sq(value)) and emptiness <=> blank are ever used, and these are the clauses proved here.
+    nv = lambda c: c.args["value"].t
+    out.append(under(
+        C.EPUB, f"{C.ECLS}._normalize_ws", norm,
+        params=[("self", Maker(lambda ex, st, n: VUnk(n), desc="receiver (static method)")), ("value", P_STR)],
+        result_maker=lambda ex, st, ctx: VStr(T.STRIP(T.WSSUB(ctx.args["value"].t))),
+        ensures=[("nw(result)==nw(value)", X.robust(lambda c: NW(c.result.t) == NW(nv(c)))),
+                 ("sq(result)==trim(sq(value))", X.robust(lambda c: z3.Implies(NW(nv(c)) != lit(""), SQ(c.result.t) == T.trim(SQ(nv(c)))))),
+                 ("result-empty-iff-value-blank", X.robust(lambda c: (z3.Length(c.result.t) == 0) == (NW(nv(c)) == lit(""))))],
+        note="' '.join(v.split()).strip() collapses whitespace runs to one blank and strips the ends (assumed models: str.split(), str.join, str.strip)"))
     for name, extra in (("handle_starttag", [("tag", P_STR), ("attrs", P_ATTRS)]), ("handle_endtag", [("tag", P_STR)]), ("handle_data", [("data", P_STR)])):
         ens = [("inside-removed-markup-text-sinks-and-layout-state-untouched", X.robust(e_untouched))]
         if name == "handle_data":
@@ -1353,7 +1383,8 @@ def epub_walker_contracts(reg, P_STR, P_ATTRS):
 def builder_contracts(reg):
     C = _C17
     reg.ext_models["str.lower"] = C.m_lower
-    reg.ext_models["str.split"] = C.m_split
+    # split(sep ...) -> C17's opaque list (tree builder); the argument-less split() on a symbolic string -> the words model (round 7)
+    reg.ext_models["str.split"] = lambda ex, st, args, kwargs, node: (X.m_split if len(args) == 1 and not kwargs and isinstance(args[0], VStr) else C.m_split)(ex, st, args, kwargs, node)
     reg.method_models[("HTMLParserBase", "__init__")] = lambda ex, st, obj, a, k, n: [(st, NONE)]
     P_STR = Maker(lambda ex, st, name: VStr(z3.String(name)), desc="str")
     P_ATTRS = Maker(lambda ex, st, name: VExt("AttrList"), desc="list of (name, value|None) pairs")
@@ -2940,12 +2971,17 @@ ASSUMPTIONS = ["OOXML-SCHEMA: w:tab, w:br and w:cr are empty elements (ECMA-376 
                "partial correctness: termination of the recursive walkers is C01's obligation"]
 BOUNDED = [
     "docx _extract_table_text: all tables with <= 2 rows x <= 2 cells, cell content out of {p, p p, sdt(p), p + nested 1x1 table, nested 1x2 table}, "
-    "rows / cells optionally inside content controls (replay/c02_trees.py::gen_docx_tables)",
+    "rows / cells optionally inside content controls (replay/c02_trees.py::gen_docx_tables) -- since round 7 this COMPLEMENTS the verified contract "
+    "(the fold over iter(w:tr) / iter(w:tc) / iter(w:p) is proved for every tree; the token check decides what that fold means for nested tables "
+    "and is the only check when the function is not the three-loop nest: VERIFIED_OR_BOUNDED)",
     "odt _extract_full_text: office:text with <= 2 blocks out of 19 constructs (paragraph, heading, span, s/tab/line-break, note, annotation, list, nested list, "
     "heading in list, list-header, table, nested table, heading in cell, list in cell, header rows, section, tracked deletion, text box, table in list)",
     "html _HtmlTextExtractor.extract: body with <= 2 blocks out of 17 constructs (gen_html_bodies)",
     "ods _extract_sheet text / xlsx, xls _format_sheet_as_text: all grids with <= 3 rows x <= 3 cells (ragged), cells out of {token, empty, two words}; ods also repeated rows / cells",
-    "odg _extract_full_text: one page with <= 2 shapes out of 8 constructs; pptx _extract_text_from_paragraphs: txBody with <= 2 paragraphs of <= 3 items (526 bodies)",
+    "odg _extract_full_text: one page with <= 2 shapes out of 8 constructs; pptx _extract_text_from_paragraphs: txBody with <= 2 paragraphs of <= 3 items (526 bodies; "
+    "since round 7 a concrete validation of the PROVED contract, no longer the only check)",
+    "rtf _RtfParser._is_skip_destination: 99 lookaheads (excluded / ignorable destinations, body control words, destination names as plain text): "
+    "concrete validation of the proved contract",
     "document level (replay/c02_docs.py): 19 flow features x {docx, odt, html, rtf, txt}, 8 deck features x {pptx, odp}, 8 workbook features x {xlsx, ods} "
     "through the public read_* entry points and get_full_text()",
     "etree model validation: 478 trees (<= 3 levels) against xml.etree",
